@@ -195,28 +195,30 @@ def NewSsi.activateExternal (ns : NewSsi) : NewSsi :=
 def NewSsi.maybeExternal (ns : NewSsi) : NewSsi :=
   if !ns.external && decide ((ns.currentSize : Int) ≥ ns.maxRam) then ns.activateExternal else ns
 
+/-- the part of `esl_newssi_AddKey` after the size test: update `plen`, append to memory or to the tmp file -/
+def NewSsi.appendKey (ns : NewSsi) (k : PKey) : NewSsi :=
+  let n := k.key.length + 1
+  let ns := if n > ns.plen then { ns with plen := n } else ns
+  if ns.external then { ns with ptmp := ns.ptmp ++ [pkeyLine k], nprimary := ns.nprimary + 1 }
+  else { ns with pkeys := ns.pkeys ++ [k], nprimary := ns.nprimary + 1 }
+
 /-- `esl_newssi_AddKey` -/
 def NewSsi.addKey (ns : NewSsi) (key : Bytes) (fh roff doff len : Nat) : Except St NewSsi :=
   if fh ≥ MAXFILES then .error .einval
   else if ns.nprimary ≥ MAXKEYS then .error .erange
-  else
-    let ns := ns.maybeExternal
-    let n := key.length + 1
-    let ns := if n > ns.plen then { ns with plen := n } else ns
-    let k : PKey := { key := key, fnum := fh, roff := roff, doff := doff, len := len }
-    if ns.external then .ok { ns with ptmp := ns.ptmp ++ [pkeyLine k], nprimary := ns.nprimary + 1 }
-    else .ok { ns with pkeys := ns.pkeys ++ [k], nprimary := ns.nprimary + 1 }
+  else .ok (ns.maybeExternal.appendKey { key := key, fnum := fh, roff := roff, doff := doff, len := len })
+
+/-- the part of `esl_newssi_AddAlias` after the size test -/
+def NewSsi.appendAlias (ns : NewSsi) (k : SKey) : NewSsi :=
+  let n := k.key.length + 1
+  let ns := if n > ns.slen then { ns with slen := n } else ns
+  if ns.external then { ns with stmp := ns.stmp ++ [skeyLine k], nsecondary := ns.nsecondary + 1 }
+  else { ns with skeys := ns.skeys ++ [k], nsecondary := ns.nsecondary + 1 }
 
 /-- `esl_newssi_AddAlias` -/
 def NewSsi.addAlias (ns : NewSsi) (alias key : Bytes) : Except St NewSsi :=
   if ns.nsecondary ≥ MAXKEYS then .error .erange
-  else
-    let ns := ns.maybeExternal
-    let n := alias.length + 1
-    let ns := if n > ns.slen then { ns with slen := n } else ns
-    let k : SKey := { key := alias, pkey := key }
-    if ns.external then .ok { ns with stmp := ns.stmp ++ [skeyLine k], nsecondary := ns.nsecondary + 1 }
-    else .ok { ns with skeys := ns.skeys ++ [k], nsecondary := ns.nsecondary + 1 }
+  else .ok (ns.maybeExternal.appendAlias { key := alias, pkey := key })
 
 /-- `parse_pkey` -/
 def parsePKey (line : Bytes) : Except St PKey :=
